@@ -98,7 +98,7 @@ def api_level(chk, b, tier):
         logdir = os.path.join(b.dir, "racelogs-c09")
         os.makedirs(logdir, exist_ok=True)
         chunks = [sub[i::16] for i in range(16)]
-        results = R.pmap(_chunk, [(drv, ch, logdir if race else None, 120 if race else limit) for ch in chunks])
+        results = R.pmap(_chunk, [(drv, ch, logdir if race else None, 120 if race else limit) for ch in chunks], chk=chk)
         for obs in results:
             for o in obs:
                 ex = exps[o["id"]]
@@ -124,7 +124,7 @@ def api_level(chk, b, tier):
                     chk.bump("api_orders_tried_under_race_detector", ntried)
                 for mm in o.get("mismatches") or []:
                     kind = "panic" if mm.get("panic") else "numbers-differ"
-                    det = {"which": mm["which"], "order": mm["order"][:40], "panic": (mm.get("panic") or "")[:400]}
+                    det = {"which": mm["which"], "order": (mm.get("order") or [])[:40], "panic": (mm.get("panic") or "")[:400]}
                     if not mm.get("panic"):
                         det["diff"] = _jdiff(o["canonical"], mm.get("got"))
                     chk.violation("C09/api/%s/%s-order" % (kind, mm["which"]), det)
@@ -283,7 +283,7 @@ def run(chk, b, tier):
     scratch = b.scratchdir()
     n = 16 if tier == "quick" else 200
     nperm = 8 if tier == "quick" else 20
-    res = R.pmap(cli_case, [(R.SEED, i, sz, shimdir, scratch, nperm) for i in range(n)])
+    res = R.pmap(cli_case, [(R.SEED, i, sz, shimdir, scratch, nperm) for i in range(n)], chk=chk)
     listings = 0
     for i, r in enumerate(res):
         chk.count(r["evals"])
